@@ -13,6 +13,8 @@ pub struct LineServer {
     stdin: Option<ChildStdin>,
     rx: Option<Receiver<Option<String>>>,
     pub restarts: u64,
+    pub hangs: u64,
+    pub deaths: u64,
 }
 
 #[derive(Debug, Clone, PartialEq)]
@@ -26,7 +28,7 @@ pub enum Reply {
 
 impl LineServer {
     pub fn new(name: &str, cmd: Vec<String>, envs: Vec<(String, String)>) -> Self {
-        LineServer { name: name.into(), cmd, envs, child: None, stdin: None, rx: None, restarts: 0 }
+        LineServer { name: name.into(), cmd, envs, child: None, stdin: None, rx: None, restarts: 0, hangs: 0, deaths: 0 }
     }
 
     fn start(&mut self) {
@@ -123,6 +125,12 @@ impl LineServer {
     pub fn batch(&mut self, lines: &[String], timeout: Duration) -> Vec<Reply> {
         let mut out: Vec<Reply> = Vec::with_capacity(lines.len());
         while out.len() < lines.len() {
+            // circuit breaker: a tree on which (nearly) every case hangs or kills the worker would
+            // otherwise take cases x timeout; what has been seen by then is reported, the rest of
+            // the batch is left unevaluated (the caller records how many)
+            if self.hangs as u64 * timeout.as_secs().max(1) >= 600 || self.deaths >= 3000 {
+                break;
+            }
             if self.child.is_none() {
                 self.start();
             }
@@ -149,6 +157,7 @@ impl LineServer {
                     Ok(None) | Err(RecvTimeoutError::Disconnected) => {
                         let st = self.reap();
                         self.restarts += 1;
+                        self.deaths += 1;
                         out.push(Reply::Died(st));
                         failed = true;
                         break;
@@ -156,6 +165,7 @@ impl LineServer {
                     Err(RecvTimeoutError::Timeout) => {
                         self.kill();
                         self.restarts += 1;
+                        self.hangs += 1;
                         out.push(Reply::Hang);
                         failed = true;
                         break;
